@@ -13,7 +13,7 @@ type Call struct {
 	PTypes  []string // rendered parameter types
 	Result  string   // rendered result list ("" = none)
 	ExprFn  func(args []string) string
-	NoValue bool // the call is a statement
+	NoValue bool     // the call is a statement
 	Std     []string // std imports needed by the parameter/result types
 }
 
